@@ -633,6 +633,11 @@ def gen_ops(r: Stream, world: Dict[str, Any], n: int, *, mutations: bool = True,
         now += r.choice([0, 1, 1000, 60_000, 86_400_000])
         ops.append({"op": "turn", "agent": r.choice(agents), "text": text, "turn_id": turn, "now_ms": now})
         turn += 1 if turn_ids == "seq" else r.choice([0, 1, 2])
+    if r.chance(0.3):
+        # contexts shaped like the engine's own TurnCtx / run_smoke_turn: the configuration in ctx.cfg only
+        for o in ops:
+            if o["op"] == "turn":
+                o["ctx_style"] = "cfg_only"
     return ops
 
 
